@@ -149,6 +149,14 @@ func c09Inputs(tier string) []c09Input {
 	// YAML anchors and merge keys (yamlMerge ranges over maps)
 	ins = append(ins, c09Input{Kind: "yaml-merge-keys", Format: "json", YAML: "x: &x {a: 1, b: 2, c: 3}\ny: &y {a: 9, d: 4}\nz:\n  <<: [*x, *y]\n  e: 5\nw:\n  <<: *y\n  a: 0\n"})
 	ins = append(ins, c09Input{Kind: "yaml-stream", Format: "yaml", YAML: "a: 1\nb: {x: 1, y: 2}\n---\nc: 3\n$output: true\nd: {$output: true, e: 1}\n"})
+	// streams of many documents (a per-document worker pool would show here), some of them failing
+	many := ""
+	for i := 0; i < 9; i++ {
+		many += fmt.Sprintf("n: %d\nm: {b: %d, a: 1}\n---\n", i, i)
+	}
+	ins = append(ins, c09Input{Kind: "yaml-stream-9-documents", Format: "yaml", YAML: many})
+	ins = append(ins, c09Input{Kind: "yaml-stream-12-documents-two-outputs-each", Format: "json", YAML: strings.Repeat("a: {$output: true, v: 1}\nb: {$output: true, v: 2}\n---\n", 12)})
+	ins = append(ins, c09Input{Kind: "yaml-stream-9-documents-two-failing", Format: "json", YAML: "a: 1\n---\nb: $required\n---\nc: 1\n---\nd: 1\n---\ne: 1\n---\nf: 1\n---\ng: 1\n---\nh: $bogus\n---\ni: 1\n"})
 	// plain trees with 3 keys
 	plain := gen.Trees(gen.Alphabet{Scalars: []any{1, "$required"}, Keys: []string{"a", "$$", "$"}, MaxList: 1, MaxMap: 3}, 4)
 	step := 1
@@ -283,6 +291,11 @@ func buildC09(tier string) *core.Plan {
 	for a := 0; a+2 < pk; a += 3 {
 		pairs = append(pairs, []int{a, a + 1, a + 2})
 	}
+	// every hand-picked input alone: one evaluation has a single schedule unless the library
+	// starts goroutines of its own, which then become threads of the explored schedule
+	for _, a := range picked {
+		pairs = append(pairs, []int{a})
+	}
 	sched := core.Space{Name: "schedules", N: int64(len(pairs)),
 		Desc: func(i int64) any {
 			var ks []any
@@ -307,6 +320,10 @@ func buildC09(tier string) *core.Plan {
 				b = 1
 			}
 			bad := false
+			var kinds []string
+			for _, ii := range idx {
+				kinds = append(kinds, ins[ii].Kind)
+			}
 			res := explore.Schedules(b, maxExec, bodies, func(obs []string, schedule []int) {
 				if bad {
 					return
@@ -314,12 +331,31 @@ func buildC09(tier string) *core.Plan {
 				for k := range obs {
 					if obs[k] != solo[k] {
 						bad = true
+						if len(idx) == 1 {
+							c.Outcome("SCHEDULE-DEPENDENT")
+							c.Fail("schedules", "result-depends-on-schedule-of-internal-goroutines", kinds[0],
+								map[string]any{"free_running": clip(solo[k]), "scheduled": clip(obs[k]), "schedule": schedule})
+							return
+						}
 						c.Outcome("CROSS-TALK")
-						c.Fail("schedules", "result-depends-on-concurrent-evaluation", fmt.Sprintf("%s || %s", ins[idx[0]].Kind, ins[idx[1]].Kind),
+						c.Fail("schedules", "result-depends-on-concurrent-evaluation", strings.Join(kinds, " || "),
 							map[string]any{"thread": k, "alone": clip(solo[k]), "concurrent": clip(obs[k]), "schedule": schedule})
 					}
 				}
 			})
+			c.Extra("threads_spawned_by_library", int64(res.SpawnedThreads))
+			if res.Stuck {
+				// outside what the cooperative scheduler models: said, not judged
+				c.Extra("schedules_abandoned_unmodelled_blocking", 1)
+				c.Outcome("schedule-exploration-not-applicable")
+				c.Expensive()
+				return
+			}
+			if res.Deadlocks > 0 && !bad {
+				bad = true
+				c.Outcome("DEADLOCK")
+				c.Fail("schedules", "deadlock", strings.Join(kinds, " || "), map[string]any{"executions_deadlocked": res.Deadlocks})
+			}
 			c.Extra("schedules", int64(res.Executions))
 			c.Extra("max_scheduling_points", int64(res.MaxPoints))
 			c.Trans(res.Executions * len(idx))
